@@ -52,6 +52,10 @@ def plan_C01(chk, tier, seed):
     cfgs = ["none", "all"] if tier == "quick" else ALL8
     vectors(chk, "MC_Requests", "MC_Cases", cfgs, ["C01"],
             ["TypeOK", "DecodeTotal", "DecodeFaithful", "KeyAttribution", "HostCanonical", "Emit"])
+    # the dictionary of the source, the specially-parsed texts, and every member once per sub-command
+    simple(chk, "MC_Requests", ["all"] if tier == "quick" else ["none", "all"], ["C01"],
+           ["TypeOK", "DecodeTotal", "DecodeFaithful", "KeyAttribution", "Emit"],
+           cases="MC_CasesDict" if tier == "quick" else "MC_CasesDictDeep", workers=14)
     # the documented lossy members inside complete requests: names cut at 64 bytes for every
     # width pattern straddling the cut, icons around 128 bytes
     simple(chk, "MC_Truncate", ["all"] if tier == "quick" else ["none", "all"], ["C01"],
@@ -500,6 +504,9 @@ def plan_C09(chk, tier, seed):
 def plan_C10(chk, tier, seed):
     # "all+log": the same vectors against the crate built with its logging statements compiled in
     simple(chk, "MC_Dispatch", ["none", "all", "all+log"], ["C10"], ["TypeOK", "ExactlyOneHandler", "Emit"])
+    # the dictionary of the source and every member once per sub-command
+    simple(chk, "MC_Dispatch", ["all", "all+log"] if tier == "quick" else ["none", "all", "all+log"], ["C10"],
+           ["TypeOK", "ExactlyOneHandler", "Emit"], cases="MC_CasesDict" if tier == "quick" else "MC_CasesDictDeep", workers=14)
     # complete exchanges: decode -> dispatch -> handler -> encode, accepted and rejected requests
     simple(chk, "MC_Session", ["all"] if tier == "quick" else ["none", "all"], ["C10"],
            ["TypeOK", "DecodeTotal", "ExchangeDispatch", "ExchangeAnswer", "Emit"])
@@ -646,7 +653,7 @@ def drive_and_validate(chk, cfg, driver, n, seed, props_by_op, run, shards=4):
 
 
 def plan_C19(chk, tier, seed):
-    n = 4000 if tier == "quick" else 60000
+    n = 6000 if tier == "quick" else 60000
     drive_and_validate(chk, "all+arb", "arbitrary", n, seed, {"arbitrary": ["C19"]}, "C19.arbitrary",
                        shards=8)
     return ("the crate's Arbitrary implementations for ctap1::Request, ctap2::Request and authenticator::Request run on "
